@@ -399,7 +399,8 @@ var verifEdgeKeys = []verifEdge{{0, "la2"}, {4999, "5if"}, {5000, "i37"}, {5460,
 // a replica in the latest topology. probes=1: every ticker run also sends the periodic topology probe to
 // a node picked by the random source (so connections opened for probing under an old role exist too).
 // anyKey=1: keys are two arbitrary bytes (slot = real CRC of arbitrary data); anyKey=0: the key is chosen
-// among keys hashing to the first and last slot of every range of every topology.
+// among keys hashing to the first and last slot of every range of every topology; anyKey=2: a reduced set
+// (read/write, four keys) for histories of two changes.
 func HarnessC04Topo(h, pw, ntopo, probes, anyKey int) { verifC04Topo(h, pw, ntopo, probes, anyKey, 1) }
 
 // HarnessC04TopoConns: the same with `conns` connections per backend node (redis.server_connections): the
@@ -436,6 +437,11 @@ func verifC04Topo(h, pw, ntopo, probes, anyKey, conns int) {
 	request := func(t core.VerifTopo, warm bool) {
 		names := []string{"get", "set", "hscan"}
 		edges := verifEdgeKeys
+		if anyKey == 2 {
+			// two-change histories: a read or a write, one key per replica set plus the two range edges that move
+			names = names[:2]
+			edges = []verifEdge{verifEdgeKeys[0], verifEdgeKeys[3], verifEdgeKeys[4], verifEdgeKeys[9]}
+		}
 		if warm && anyKey == 0 {
 			// the warm-up only has to leave connections behind: a read or a write per replica set
 			names = names[:2]
